@@ -438,7 +438,7 @@ def saddr(al, i):
     return 0x100 * (i + 1) + 11 + i if al == 2 else 11 + i
 
 
-def exchange(mode, al, sc, nslaves, actions, rounds, tick, q1=10, q2=10, mq=10, lose=(), dup=(), extra_cfg="", tls=1500, marks=False):
+def exchange(mode, al, sc, nslaves, actions, rounds, tick, q1=10, q2=10, mq=10, lose=(), dup=(), extra_cfg="", tls=1500, marks=False, quiet=()):
     """one script: every round = tick; application actions due in this round; poll (unbalanced); step m; step every slave.
     actions: {round: [script lines]}.  marks: after every tick a line `mark`, which harness and model both echo as
     `? mark` (unknown command) -- the oracle uses the echoes to know the virtual time of every trace line"""
@@ -452,7 +452,7 @@ def exchange(mode, al, sc, nslaves, actions, rounds, tick, q1=10, q2=10, mq=10, 
         if marks:
             s.append("mark")
         s += actions.get(r, [])
-        if mode == "unb":
+        if mode == "unb" and r not in quiet:      # quiet rounds: the master application asks for nothing, the line is silent
             for i in range(nslaves):
                 s.append("poll s%d" % (i + 1))
         s.append("step m")
